@@ -43,6 +43,8 @@ Definition check_cert (c : case) (conf : list dir) (q : request) : list (nat * s
             | _, _ => [(code_violation, "certificate file or Secret missing: " ^^ path)]
             end
           else if ambiguous then [(code_known known_D25, "two servers for one name (D25): " ^^ path)]
+          else if class_D34 (k_cluster c) q then
+                 [(code_known 34, "the listener that owns the name has only invalid Routes and lost its own server (D34): " ^^ path)]
           else [(code_violation, "wrong certificate: " ^^ path ^^ " expected " ^^ pem_path ns n)]
       | None, None => []
       | None, Some path => [(code_violation, "a certificate is served where none is expected: " ^^ path)]
